@@ -437,7 +437,8 @@ def r25(ctx: Ctx) -> RuleReport:
                 if fq in guard_of:
                     want = f"{optparam}['{guard_of[fq]}']"
                     good = guards_true == {want} and not guards_false
-                    rep.add(k, fi.loc(call), 'ok' if good else 'undecided',
+                    crossed = bool(guards_true) and want not in guards_true
+                    rep.add(k, fi.loc(call), 'ok' if good else ('violation' if crossed else 'undecided'),
                             '' if good else f'runs under {sorted(guards_true) or "no option"}'
                                             f'{" and not " + str(sorted(guards_false)) if guards_false else ""}, documented guard is {want}')
                 elif fq in spec['unconditional'] and fn == '_process_in':
